@@ -25,7 +25,7 @@ import vlib
 
 LEVEL = "proof"
 MODULE = "Sqfs.Props.C16"
-REQUIRED = ["Sqfs.C16.split_print_roundtrip", "Sqfs.C16.handle_print_roundtrip", "Sqfs.C16.handle_print_roundtrip_line",
+REQUIRED = ["Sqfs.C16.rebuild_fstree_partial", "Sqfs.C16.split_print_roundtrip", "Sqfs.C16.handle_print_roundtrip", "Sqfs.C16.handle_print_roundtrip_line",
             "Sqfs.C16.describe_roundtrip", "Sqfs.C16.describe_newline_sound", "Sqfs.C16.describe_newline_refusal",
             "Sqfs.C16.describe_newline_same", "Sqfs.C16.handle_print_newline_sound",
             "Sqfs.C16.split_never_fuel", "Sqfs.C16.split_dst_le_src", "Sqfs.C16.parse_print_dec",
@@ -777,6 +777,119 @@ def special_trees(ctx):
 
 
 # --------------------------------------------------------------------------------------------------------------
+# the tree in gensquashfs' memory (real lib/fstree below the real fstree_from_file.c)
+
+FS_NAMES = [b"a", b"b", b"c c", b"d\"", b"e\\", b"z", b"a"]
+
+
+def gen_fs_packfiles(ctx):
+    """pack files over a small set of names, so that implicit directories, their later definition, duplicates, files
+    used as directories and the root line all occur"""
+    rng = ctx.rng
+    out = []
+    for _ in range(400 if ctx.quick() else 8000):
+        lines = []
+        for _ in range(rng.randint(1, 12)):
+            kw = rng.choice([b"dir", b"dir", b"file", b"slink", b"nod", b"pipe", b"sock", b"link"])
+            comps = [rng.choice(FS_NAMES) for _ in range(rng.randint(1, 4))]
+            path = rng.choice([b"/", b"", b"//", b"./"]) + rng.choice([b"/", b"/", b"//"]).join(comps) + rng.choice([b"", b"", b"/"])
+            if rng.random() < 0.06:
+                path = b"/"
+            parts = [kw, q(path) if rng.random() < 0.7 or any(c in path for c in b' "\\') else path,
+                     b"0%o" % rng.choice(PERMS), b"%d" % rng.choice(IDS), b"%d" % rng.choice(IDS)]
+            if kw == b"slink" or kw == b"link":
+                parts.append(rng.choice([b"t", b"\"a b\"", b"/x"]))
+            elif kw == b"nod":
+                parts += [rng.choice([b"c", b"b"]), b"%d" % rng.choice([0, 5, 4095, 4096, 4294967295]), b"%d" % rng.choice([0, 1, 255, 1048575, 4294967295])]
+            elif kw == b"file" and rng.random() < 0.5:
+                parts.append(rng.choice([b"loc", b"\"in put\""]))
+            lines.append(b" ".join(parts))
+        out.append(b"\n".join(lines) + b"\n")
+    return out
+
+
+def check_fs(ctx, pair, stats):
+    """`Sqfs.QuoteFs.buildFromFile` against fstree_from_file_stream on the real lib/fstree; on the real describe output of
+    generated trees also against the specification `normTree` (the right-hand side of rebuild_fstree_partial)"""
+    lib = ctx.build_lib()
+    pfs = Pair(ctx, ctx.cc("h_c16_fs", ["h_c16_fs.c"], libs=[str(lib)] + vlib.CODEC_LIBS))
+    rng = ctx.rng
+
+    def defaults():
+        return "%d %d %d %d" % (rng.choice(IDS), rng.choice(IDS), rng.choice([0o755, 0o700, 0, 0o7777, 0o177777]), rng.choice([0, 1, 1234567890, 4294967295]))
+
+    ops = []
+    files = gen_fs_packfiles(ctx) + gen_packfiles(ctx)[::3]
+    cdir = vlib.CORPUS / "C16"
+    for p in sorted(cdir.glob("*.ops")):
+        for l in p.read_text().splitlines():
+            if l.startswith("parse "):
+                files.append(untok(l.split(" ")[5]))
+    for i, c in enumerate(files):
+        o = [("1", 0, "1", 0), ("0", 7, "1", 0), ("1", 0, "0", 4294967295)][i % 3 if i % 7 == 0 else 0]
+        ops.append("fsbuild %s %d %s %d %s %s" % (o[0], o[1], o[2], o[3], defaults(), tok(c)))
+    impl, crash = pfs.impl(ops)
+    if crash:
+        report_crash(ctx, ops, crash, "fstree_from_file_stream on the real fstree")
+        return
+    model = pair.model(ops)
+    hist, bad = {}, 0
+    for o, a, b in szip(ops, impl, model):
+        need(a != "bad-op" and b != "bad-op", "fsbuild not understood: %s" % o[:120])
+        st = a.rsplit("st=", 1)[-1]
+        hist[st] = hist.get(st, 0) + 1
+        if a != b:
+            bad += 1
+            if bad <= 5:
+                ctx.violation("corr:fs:" + vlib.sha(o)[:16], "lib/fstree and its model disagree on `%s`: impl=%s model=%s" % (o[:200], a[:400], b[:400]),
+                              {"op": o, "impl": a, "model": b, "correspondence": "harness/h_c16_fs.c vs Sqfs.QuoteFs.buildFromFile"}, found_input=False)
+    for k in ("ok", "fs:exist", "fs:notdir", "fs:range"):
+        need(hist.get(k, 0) > 0, "no pack file ended in status %s on the real fstree" % k)
+    # real describe output of generated trees → real fstree, against the model and against the specification
+    trees = gen_trees(ctx, 80 if ctx.quick() else 3000, maxnodes=30)
+    # links with permission bits other than 0777 (a foreign image can hold them; `mknode` normalises them)
+    trees = [[(n[0], n[1], rng.choice(PERMS)) + tuple(n[3:]) if n[1] == "slink" and rng.random() < 0.5 else tuple(n) for n in t] for t in trees]
+    roots = [None, b"R", b"r s", b"/abs/\"q\"", None]
+    dops = [tree_line("x", roots[i % len(roots)], t) for i, t in enumerate(trees)]
+    dimpl, crash = pair.impl(dops)
+    if crash:
+        report_crash(ctx, dops, crash, "describe_tree (trees for the fstree step)")
+        return
+    ops2, mops2, meta = [], [], []
+    for i, (t, l) in enumerate(szip(trees, dimpl)):
+        if not l.startswith("ok "):
+            continue
+        dflt = defaults()
+        ops2.append("fsbuild 1 0 1 0 %s %s" % (dflt, l[3:]))
+        mops2 += [ops2[-1], tree_line("ntree", roots[i % len(roots)], t).replace("dtree ntree ", "ntree %s " % dflt, 1)]
+        meta.append(i)
+    need(len(ops2) * 10 >= len(trees) * 9, "describe_tree printed only %d of %d trees" % (len(ops2), len(trees)))
+    impl2, crash = pfs.impl(ops2)
+    if crash:
+        report_crash(ctx, ops2, crash, "fstree_from_file_stream on describe output")
+        return
+    model2 = pair.model(mops2)
+    nspec = nodes = 0
+    caps = {}
+    for k, (o, a) in enumerate(szip(ops2, impl2)):
+        b, spec = model2[2 * k], model2[2 * k + 1]
+        need("bad-op" not in (a, b, spec), "fsbuild/ntree not understood: %s" % o[:120])
+        if a != b:
+            capped(ctx, caps, "corr:fs", "corr:fs:" + vlib.sha(o)[:16], "lib/fstree and its model disagree on the describe output of a tree: impl=%s model=%s" % (a[:400], b[:400]),
+                   {"op": o, "impl": a, "model": b, "correspondence": "harness/h_c16_fs.c vs Sqfs.QuoteFs.buildFromFile"}, False)
+        # the specification on the implementation's behaviour: the rebuilt in-memory tree is normTree of the original
+        nspec += 1
+        nodes += int(a.split(" ")[1])
+        if a != spec:
+            capped(ctx, caps, "rt:fs", "rt:fs:" + vlib.sha(o)[:16],
+                   "the tree gensquashfs builds from the describe output is not the original tree: built=%s expected=%s" % (a[:500], spec[:500]),
+                   {"tree": dops[meta[k]], "op": o, "built": a, "expected": spec}, True)
+    stats.update({"fs_packfiles": len(files), "fs_status_histogram": dict(sorted(hist.items())), "fs_disagreements": bad,
+                  "fs_trees_rebuilt_and_compared_with_normTree": nspec, "fs_nodes_rebuilt": nodes})
+    pair.evals += pfs.evals
+
+
+# --------------------------------------------------------------------------------------------------------------
 # tool level
 
 def q(s):
@@ -1089,6 +1202,7 @@ def run(ctx):
     distinct = check_cases(ctx, pair, cases, stats) or set()
     rtrees = gen_trees(ctx, 60 if ctx.quick() else 3000)
     check_trees(ctx, pair, special_trees(ctx) + rtrees, stats, [None, b"R", b"r s", b"/abs/\"q\"", b"t\\", None, b"u\nv"], (len(rtrees) * 3) // 4)
+    check_fs(ctx, pair, stats)
     check_tools(ctx, pair, stats)
     ctx.cov.update(stats)
     ctx.cov.update({
